@@ -126,7 +126,7 @@ class Source:
         """all blocks whose header matches `header` (whitespace-insensitive literal), as (open, close)"""
         if header in ('-', ''):
             return [(-1, len(self.text))]
-        rx = r'(?<![A-Za-z0-9_])' + r'\s*'.join(re.escape(tok) for tok in re.findall(r'[A-Za-z0-9_]+|\S', header))
+        rx = r'(?<![A-Za-z0-9_])' + r'\s*'.join(re.escape(tok) for tok in re.findall(r'[A-Za-z0-9_]+|\S', header)) + r'(?![A-Za-z0-9_])'
         out = []
         for s, e in self.finditer_code(rx):
             o = self.header_end(e, len(self.text))
@@ -134,7 +134,7 @@ class Source:
                 continue
             # the header must run straight into `{` or a where clause
             between = self.text[e:o].strip()
-            if between and not between.startswith('where'):
+            if between and not (between.startswith('where') or between.startswith('<') or between.startswith(':')):
                 continue
             out.append((o, self.match_close(o)))
         if not out:
